@@ -528,24 +528,62 @@ func parseRule(node *yaml.Node, offsetLine, offsetColumn int, contentLines []str
 func unpackNodes(node *yaml.Node) []*yaml.Node {
 	nodes := make([]*yaml.Node, 0, len(node.Content))
 	var isMerge bool
+	var mergeKey *yaml.Node
 	for _, part := range node.Content {
-		if part.ShortTag() == mergeTag && part.Value == "<<" {
+		if !isMerge && part.ShortTag() == mergeTag && part.Value == "<<" {
 			isMerge = true
+			mergeKey = part
+			continue
+		}
+
+		if isMerge {
+			// This is the value of a merge key: an alias, an inline mapping
+			// or a list of those.
+			isMerge = false
+			switch {
+			case part.Alias != nil:
+				nodes = append(nodes, resolveMapAlias(part, node).Content...)
+			case part.Kind == yaml.MappingNode:
+				nodes = append(nodes, mergeableContent(part.Content, node)...)
+			case part.Kind == yaml.SequenceNode:
+				for _, item := range part.Content {
+					switch {
+					case item.Alias != nil:
+						nodes = append(nodes, resolveMapAlias(item, node).Content...)
+					case item.Kind == yaml.MappingNode:
+						nodes = append(nodes, mergeableContent(item.Content, node)...)
+					default:
+						nodes = append(nodes, mergeKey, part)
+					}
+				}
+			default:
+				// Not something that can be merged, keep it so it gets reported.
+				nodes = append(nodes, mergeKey, part)
+			}
+			continue
 		}
 
 		if part.Alias != nil {
-			if isMerge {
-				nodes = append(nodes, resolveMapAlias(part, node).Content...)
-			} else {
-				nodes = append(nodes, resolveMapAlias(part, part))
-			}
-			isMerge = false
-			continue
-		}
-		if isMerge {
+			nodes = append(nodes, resolveMapAlias(part, part))
 			continue
 		}
 		nodes = append(nodes, part)
+	}
+	return nodes
+}
+
+func mergeableContent(content []*yaml.Node, parent *yaml.Node) (nodes []*yaml.Node) {
+	var ok bool
+	for i, n := range content {
+		if i%2 == 0 {
+			ok = !hasKey(parent, n.Value)
+		}
+		if ok {
+			nodes = append(nodes, n)
+		}
+		if i%2 == 1 {
+			ok = false
+		}
 	}
 	return nodes
 }
